@@ -9,7 +9,7 @@ from ..runner import Violation, unexpected, digest, REPO, guarded
 from ..ref import wire as W, script as S, interp as I, secp, sighash as RS, hashes as H, opnames as O
 from .. import libx, gen
 
-from bitcoin.core import ValidationError
+from bitcoin.core import ValidationError, CMutableTransaction
 from bitcoin.core.script import CScript
 from bitcoin.core.scripteval import EvalScript, VerifyScript, EvalScriptError
 
@@ -124,7 +124,8 @@ def check_verify(case):
         return {'nt': False, 'cls': ['out-of-scope:non-strict-der-signature']}
     try:
         fl_ = libx.flagset(flags)
-        fl_ = [fl_, frozenset(fl_), tuple(fl_), list(fl_)][(len(ssig) + len(spk)) % 4]          # any container of flags
+        # any container of flags - also a sequence in which a flag occurs more than once (two flag lists concatenated)
+        fl_ = [fl_, frozenset(fl_), tuple(fl_), list(fl_), tuple(fl_) + tuple(fl_), list(fl_) + list(fl_)[:1]][(len(ssig) + len(spk)) % 6]
         VerifyScript(CScript(ssig), CScript(spk), tx, idx, flags=fl_)
         lib = True
     except ValidationError:
@@ -133,6 +134,22 @@ def check_verify(case):
         raise unexpected('verify', e, 'ssig=%s spk=%s' % (ssig.hex()[:60], spk.hex()[:60]))
     if libx.tx_model_of(tx) != tx_before:
         raise Violation('verify/transaction-changed', 'VerifyScript changed the (mutable) transaction it was given')
+    if lib == ok and rs.checksig_true + rs.multisig_true and isinstance(tx, CMutableTransaction) and case.get('tag'):
+        # the SAME mutable transaction object edited in something the signatures cover and verified again at once (a fee bump):
+        # the verdict is that of the transaction as it is now
+        m_e = dict(m, locktime=m['locktime'] ^ 1)
+        tx.nLockTime = m_e['locktime']
+        ok2, why2 = I.verify_script(ssig, spk, set(flags), m_e, idx, I.ecdsa_checksig, I.Stats())
+        try:
+            VerifyScript(CScript(ssig), CScript(spk), tx, idx, flags=libx.flagset(flags))
+            lib2 = True
+        except ValidationError:
+            lib2 = False
+        except Exception as e:
+            raise unexpected('verify-after-edit', e)
+        tx.nLockTime = m['locktime']
+        if lib2 != ok2:
+            raise Violation('verify/stale-after-edit', 'the same CMutableTransaction verified, edited (nLockTime) and verified again: library %s, reference %s (%s)' % (lib2, ok2, why2))
     if lib != ok:
         raise Violation('verify/lib-%s-ref-%s' % ('accepts' if lib else 'rejects', 'accepts' if ok else 'rejects:' + why),
                         'VerifyScript(scriptSig=%s, scriptPubKey=%s, flags=%s, idx=%d, tag=%s): library %s, reference %s (%s)' % (
